@@ -575,6 +575,86 @@ func c08BuildDaemon(tier string) core.Source {
 	}}
 }
 
+// c08BuildVanishing: a client with well-formed requests that stops reading and
+// drops the connection in the middle of the server's answer (after N bytes of a
+// 24 MiB file); the same daemon must serve the canonical pull correctly right
+// afterwards, while whatever the dropped session left behind is still winding down.
+func c08BuildVanishing(tier string) core.Source {
+	drive.Quiet()
+	cuts := []int{0, 1, 13, 4096, 65536, 1 << 20, 8 << 20}
+	type cs struct {
+		cut  int
+		sums bool
+	}
+	var cases []cs
+	for _, c := range cuts {
+		cases = append(cases, cs{c, false}, cs{c, true})
+	}
+	var d *c08Daemon
+	bigData := genData(famHash, 24<<20, 808)
+	return core.FuncSource{N: len(cases), F: func(i int) core.Result {
+		c := cases[i]
+		res := core.Result{Case: fmt.Sprintf("client drops the connection after reading %d bytes of a 24 MiB download (block sums sent: %v); canonical pull follows at once", c.cut, c.sums)}
+		if d == nil {
+			var err error
+			d, err = c08NewDaemon()
+			if err != nil {
+				res.Inconcl = err.Error()
+				return res
+			}
+			tm.Tree{tm.File("big", bigData, 0o644, tm.Past)}.Materialise(filepath.Join(d.dir, "bigmod"))
+			d.srv, err = rsyncd.NewServer([]rsyncd.Module{{Name: "mod", Path: filepath.Join(d.dir, "mod")}, {Name: "up", Path: filepath.Join(d.dir, "up"), Writable: true}, {Name: "bigmod", Path: filepath.Join(d.dir, "bigmod")}},
+				rsyncd.DontRestrict(), rsyncd.WithStderr(io.Discard), rsyncd.WithLogger(nullLogger{}))
+			if err != nil {
+				res.Inconcl = err.Error()
+				return res
+			}
+		}
+		for round := 0; round < 3; round++ {
+			c2s, s2c := drive.NewPipe(false), drive.NewPipe(false)
+			done := make(chan struct{})
+			go func() {
+				defer close(done)
+				d.srv.HandleDaemonConn(context.Background(), rsyncd.NewConnection(c2s, s2c, "127.0.0.1:8"))
+				s2c.Close()
+			}()
+			var w rp.W
+			w.Int(0) // end of filter list
+			w.Int(1) // "big"
+			if c.sums {
+				basis := bigData[:1<<20]
+				sm := rp.MakeSums(basis, rp.LegalHead(len(basis), 1024, 16), 0)
+				sm.Write(&w)
+			} else {
+				rp.SumHead{Count: 0, BLen: 700, S2Len: 16}.Write(&w)
+			}
+			c2s.Write([]byte("@RSYNCD: 27\nbigmod\n--server\n--sender\n-r\n.\nbigmod/\n\n"))
+			c2s.Write(w.Bytes())
+			buf := make([]byte, 32768)
+			for got := 0; got < c.cut; {
+				n, err := s2c.Read(buf[:min(len(buf), c.cut-got)])
+				got += n
+				if err != nil {
+					break
+				}
+			}
+			s2c.Close()
+			c2s.Close()
+			cnt(&res, "transitions", 1)
+			if msg := d.canonical(); msg != "" {
+				res.Fail = core.Fail("daemon_broken_after_hostile_session", res.Case+": "+msg, "part", "vanishing")
+				return res
+			}
+			<-done
+		}
+		cnt(&res, "states", res.Counters["transitions"])
+		cnt(&res, "traces_validated_against_impl", res.Counters["transitions"])
+		res.Nontrivial = true
+		res.Outcome = "survived/vanishing"
+		return res
+	}}
+}
+
 // ---- hostile server against the real client
 
 func c08ServerStream(pull bool) *c08Builder {
@@ -753,11 +833,11 @@ func init() {
 	core.Register(&core.Prop{
 		ID:    "C08",
 		Level: "model_checking",
-		Rule: "daemon: six valid daemon-session shapes (module listing, pull, pull with -logc and real block sums, pull with filter rules, upload, upload with --delete) are built as typed field sequences; at EVERY field every value of its type's boundary set is substituted (ints: -2^31,-2,-1,0,1,v-1,v+1,2^20-1,2^31-1 and list-length+-1 for indices; flag bytes: every single bit; names/rules/link targets: empty, dot-dot, absolute, 4095/4096 bytes, wildcards, NUL, and inconsistent lengths incl. negative; greeting/module lines; EVERY option the parser knows (from its help texts) alone and with =x on every option line, plus --version/--help/--info=help/-h/--daemon/...), and the stream is truncated at EVERY byte offset (thorough: bytes {00,01,7f,80,ff} substituted at every offset and pairs of adjacent field mutations); after each hostile session the same daemon must serve the canonical valid pull correctly. client: the library client is fed a hostile server's stream with the same mutations at every field of the file list / responses, truncation at every payload offset, malformed frame headers, and complete frames of 13 lengths (0..2^24-1 around 4 KiB, 64 KiB, 256 KiB, 1 MiB) x 8 tags x 4 positions delivered with their whole payload. " +
+		Rule: "daemon: six valid daemon-session shapes (module listing, pull, pull with -logc and real block sums, pull with filter rules, upload, upload with --delete) are built as typed field sequences; at EVERY field every value of its type's boundary set is substituted (ints: -2^31,-2,-1,0,1,v-1,v+1,2^20-1,2^31-1 and list-length+-1 for indices; flag bytes: every single bit; names/rules/link targets: empty, dot-dot, absolute, 4095/4096 bytes, wildcards, NUL, and inconsistent lengths incl. negative; greeting/module lines; EVERY option the parser knows (from its help texts) alone and with =x on every option line, plus --version/--help/--info=help/-h/--daemon/...), and the stream is truncated at EVERY byte offset (thorough: bytes {00,01,7f,80,ff} substituted at every offset and pairs of adjacent field mutations); after each hostile session the same daemon must serve the canonical valid pull correctly. vanishing: a client with well-formed requests drops the connection after 0..8 MiB of a 24 MiB download (with and without block sums), 3 rounds each, and the canonical pull must be served correctly at once. client: the library client is fed a hostile server's stream with the same mutations at every field of the file list / responses, truncation at every payload offset, malformed frame headers, and complete frames of 13 lengths (0..2^24-1 around 4 KiB, 64 KiB, 256 KiB, 1 MiB) x 8 tags x 4 positions delivered with their whole payload. " +
 			"oracle: the process neither crashes nor exits (a dying worker is attributed to the journalled case) and the daemon keeps serving; states/transitions = hostile sessions; non-trivial = session that got past the handshake",
 		Assum: []string{"count-like fields stay below 2^20 unless negative; every hostile peer closes its connection; stalls are outside the guarantee"},
 		Parts: func(tier string) []core.Part {
-			return []core.Part{{Name: "daemon", Build: c08BuildDaemon}, {Name: "client", Build: c08BuildClient}, {Name: "client-daemon", Build: c08BuildClientDaemon}}
+			return []core.Part{{Name: "daemon", Build: c08BuildDaemon}, {Name: "client", Build: c08BuildClient}, {Name: "client-daemon", Build: c08BuildClientDaemon}, {Name: "vanishing", Build: c08BuildVanishing}}
 		},
 	})
 }
